@@ -407,10 +407,13 @@ func checkC16(raw json.RawMessage) (ev.Result, error) {
 		before, after := strings.Join(chunks[:at], ""), strings.Join(chunks[at:], "")
 		// put the long line inside a function of its own so that function scoping is not disturbed
 		text := before + "TEXT main.long(SB) /src/file.go\n" + long + after
-		if c.LongHeader && at < len(chunks) {
+		origCaller := ""
+		if c.LongHeader && at < len(chunks) && at < len(c.Listing.Funcs) && !sitemodel.IsWrapperFunc(c.Listing.Funcs[at].Name) {
+			// (not for the wrapper functions: renaming one changes what its body means)
 			// the header of function `at` itself is the long line; everything else stays as it is
 			body := chunks[at]
 			if i := strings.Index(body, "\n"); i >= 0 && strings.HasPrefix(body, "TEXT ") {
+				origCaller = strings.TrimPrefix(body[len("TEXT"):i], " ")
 				body = "TEXT main.long[go.shape.struct { F " + strings.Repeat("x", c.LongLen) + " }](SB) /src/file.go" + body[i:]
 				text = before + body + strings.Join(chunks[at+1:], "")
 				res.Classes = append(res.Classes, "overlong-line-is-a-function-header")
@@ -442,6 +445,14 @@ func checkC16(raw json.RawMessage) (ev.Result, error) {
 			return res, ev.Inconclusivef("parts do not parse: %v %v", ea, eb)
 		}
 		want := append(append([]string{}, keys(rb)...), keys(ra)...)
+		if origCaller != "" {
+			// an implementation that can read the long header reports the function under its long name
+			for i := range r {
+				if strings.HasPrefix(r[i].Caller, "main.long[") {
+					r[i].Caller = origCaller
+				}
+			}
+		}
 		if !reflect.DeepEqual(keys(r), want) && !(len(r) == 0 && len(want) == 0) {
 			return res, fmt.Errorf("a %d-byte line (function header: %v) at the %s of the listing: no error is returned, but the result %v is not the result %v of the same listing without the long line: partial or mis-attributed result without error",
 				c.LongLen, c.LongHeader, pos, keys(r), want)
